@@ -231,6 +231,15 @@ func TestHistories(t *testing.T) {
 			if err != nil {
 				return
 			}
+			// the working directory of the generator is part of the command
+			// line, not of the design: half of the histories run the
+			// generators from another directory than the output directory
+			if i%2 == 1 {
+				run.Cwd = sess.Root
+				stats.Class("history:cwd-differs-from-output")
+			} else {
+				stats.Class("history:cwd-is-output")
+			}
 			// reference trees from a first clean gen + example
 			if v := sess.Eval(run, "gen", 120*time.Second); !v.Accepted || v.Stage != "done" {
 				stats.Class("design-not-generated")
@@ -381,7 +390,7 @@ func TestHistories(t *testing.T) {
 // clean-up logic of the command itself is part of the property.
 func TestRealCLI(t *testing.T) {
 	seed := rt.EnvInt("VERIF_SEED", 1)
-	n := 2
+	n := 3
 	if rt.Tier() == "thorough" {
 		n = 12
 	}
@@ -413,11 +422,21 @@ func TestRealCLI(t *testing.T) {
 		}
 		ran++
 		wg.Add(1)
-		go func(run *pipeline.Run, d *m.Design) {
+		go func(run *pipeline.Run, d *m.Design, variant int) {
 			defer wg.Done()
+			// command-line variants: run from the output directory, or from
+			// the module root with an absolute or a relative -o
+			cwd, outArg := run.Dir, run.Dir
+			switch variant % 3 {
+			case 1:
+				cwd = sess.Root
+			case 2:
+				cwd, outArg = sess.Root, run.Name
+			}
+			stats.Class(fmt.Sprintf("cli-variant:%d", variant%3))
 			cli := func(cmd string) (string, error) {
-				c := exec.Command(goa, cmd, run.Pkg+"/design", "-o", run.Dir)
-				c.Dir = run.Dir
+				c := exec.Command(goa, cmd, run.Pkg+"/design", "-o", outArg)
+				c.Dir = cwd
 				c.Env = append(pipeline.GoEnv(), "PATH="+filepath.Join(sess.VerifRoot, "stubs", "bin")+":"+os.Getenv("PATH"))
 				out, err := c.CombinedOutput()
 				return string(out), err
@@ -453,6 +472,17 @@ func TestRealCLI(t *testing.T) {
 					keep := func(rel string) bool {
 						return isInput(rel) || strings.HasPrefix(rel, "gen"+string(filepath.Separator)) || rel == "go.mod" || rel == "go.sum"
 					}
+					// the user edits one example file before running example again
+					var exFiles []string
+					for rel := range snapshot(run.Dir, keep) {
+						if strings.HasSuffix(rel, ".go") {
+							exFiles = append(exFiles, rel)
+						}
+					}
+					sort.Strings(exFiles)
+					if len(exFiles) > 0 {
+						_ = os.WriteFile(filepath.Join(run.Dir, exFiles[variant%len(exFiles)]), []byte("// edited by the user\npackage edited\n"), 0o644)
+					}
 					before := snapshot(run.Dir, keep)
 					if out, err := cli("example"); err != nil {
 						msg = "the second goa example failed: " + firstLines(out, 6)
@@ -463,13 +493,13 @@ func TestRealCLI(t *testing.T) {
 			}
 			mu.Lock()
 			defer mu.Unlock()
-			stats.CaseSample("cli|"+run.Name, true, map[string]any{"design": run.Name, "history": "goa gen; stray; goa gen; goa example; goa example"})
+			stats.CaseSample("cli|"+run.Name, true, map[string]any{"design": run.Name, "history": "goa gen; stray; goa gen; goa example; edit; goa example", "variant": []string{"cwd=output", "cwd=module root, absolute -o", "cwd=module root, relative -o"}[variant%3]})
 			if msg != "" {
 				failures++
 				dir := saveReplay(run, map[string][]byte{"message.txt": []byte(msg)})
 				fmt.Printf("C09 failing CLI history saved: %s\n  %s\n", dir, msg)
 			}
-		}(run, d)
+		}(run, d, ran)
 	}
 	wg.Wait()
 	if failures > 0 {
